@@ -15,34 +15,26 @@ TRANSLATORS = [t1_operators.translate, t4_arith.translate]
 PROPERTY_FILE = 'Properties/C08.v'
 THEOREMS = [
     'C08_every_generator_only_extends', 'C08_extension_meaning', 'C08_result_length_formulas',
-    'C08_mul_default_partial', 'C08_mul_alter_exact', 'C08_mul_dadda_exact', 'C08_mul_wallace_partial',
+    'C08_mul_default_exact', 'C08_mul_alter_exact', 'C08_mul_dadda_exact', 'C08_mul_wallace_partial',
     'C08_mul_pow2_m1_exact', 'C08_mul_karatsuba_exact', 'C08_mul_karatsuba_pow2_exact', 'C08_last_step_exact',
     'C08_square_exact', 'C08_square_pow2_m1_exact',
     'C08_generate_mul', 'C08_generate_square',
-    'C08_modes_return_with_the_stated_length_upto8', 'C08_karatsuba_recursion_returns',
-    'C08_squares_return_upto12', 'C08_struct_meaning',
+    'C08_modes_return_with_the_stated_length_upto6', 'C08_squares_return_upto8', 'C08_struct_meaning',
 ]
 PARTIAL = {
-    'C08_mul_default_partial':
-        'add_mul (default mode): the product is proved for ALL widths (the levels returned by the weighted sum '
-        'are proved to be 0, 1, 2, ... without a gap, so the returned labels spell the product); the clause '
-        '"n + m result bits (n + m - 1 when one width is 1)" is NOT proved for all widths - it needs a count of '
-        'the carries the XAIG scheduler passes from level to level; it is established by kernel computation for '
-        'every width pair <= 8 (C08_modes_return_with_the_stated_length_upto8) and by the direct oracle on '
-        'every run',
     'C08_mul_wallace_partial':
         'add_mul_wallace: the product is proved for ALL widths and length <= n + m; that the final shifted adder '
-        'returns at least n + m bits (so that the length is exactly n + m) is computed for every width pair <= 8 '
+        'returns at least n + m bits (so that the length is exactly n + m) is computed for every width pair <= 6 '
         'only. The model returns Err where the code would compact rows 0 / 1 of the reduced matrix by skipping '
-        'placeholders BETWEEN gates (a malformed result); that this never happens is computed up to 8 x 8 and '
+        'placeholders BETWEEN gates (a malformed result); that this never happens is computed up to 6 x 6 and '
         'checked by the correspondence run (model Ok wherever the implementation returns), not proved for all widths',
-    'C08_modes_return_with_the_stated_length_upto8':
+    'C08_modes_return_with_the_stated_length_upto6':
         'the all-width theorems are conditional on the model run returning Ok; that the fuel of the modelled while '
         'loops suffices and that Python-level IndexError / AssertionError paths are not taken on well-formed calls '
-        'is computed for every width pair <= 8 (all seven functions), for the Karatsuba recursion at 18 / 20 '
-        '(C08_karatsuba_recursion_returns) and for the squarers up to 12 bits (C08_squares_return_upto12), not '
-        'proved for all widths; the correspondence check shows Ok wherever the implementation returned (incl. '
-        'widths 35-41, 47-54)',
+        'is computed for every width pair <= 6 (all seven functions) and for the squarers up to 8 bits '
+        '(C08_squares_return_upto8), not proved for all widths (the bound is kept small because coqchk re-evaluates '
+        'these computations without a bytecode VM); the correspondence check shows Ok wherever the implementation '
+        'returned (all pairs <= 8 / 10, Karatsuba at 17-41 / 64, squarers at 47-54 / 97)',
 }
 LEVEL_TEXT = ('every multiplication mode (add_mul, add_mul_alter, add_mul_dadda, add_mul_wallace, add_mul_pow2_m1, '
               'add_mul_karatsuba_with_efficient_sum = MulMode.KARATSUBA, plus add_mul_karatsuba and the private '
@@ -53,8 +45,10 @@ LEVEL_TEXT = ('every multiplication mode (add_mul, add_mul_alter, add_mul_dadda,
               '2^(n+m) for the column compressors, peeling of the partial-product matrix by anti-diagonals for the '
               'pow2_m1 family, strong induction on the width (through the fuel) with the exact thresholds of the '
               'code for Karatsuba and for the squarer; the number of result bits (n+m, n+m-1 with a one-bit '
-              'operand; 2n / 1) is proved for all widths for alter, dadda, pow2_m1, both Karatsuba variants and both '
-              'squarers, and by kernel computation up to 8 x 8 for the default mode and Wallace (<= n+m proved); '
+              'operand; 2n / 1) is proved for all widths for the default mode (by a potential argument on the sorted '
+              'work lists of the weighted sum: one level turns k pending bits into one result bit and floor(k/2) '
+              'carries), alter, dadda, pow2_m1, both Karatsuba variants and both squarers; for Wallace <= n+m is '
+              'proved and equality is computed up to 6 x 6; '
               '"only fresh gates, old gates keep their function" is the generic extension theorem of the builder '
               'layer; generate_mul / generate_square are proved for every MulMode / SquareMode; the model is tied to '
               '/repo by regenerating the cells (translator T4) and by netlist-equality correspondence on every run '
@@ -73,7 +67,7 @@ LEVEL_NOTE = ('Coq kernel + vm_compute; translators T1, T4; correspondence harne
               'label; where add_mul_wallace would compact non-contiguous rows the model returns Err')
 TECHNIQUE = ('Coq proof: generators as programs of the deep-embedded builder monad over the Circuit model; partial '
              'products as a matrix with value sum_i 2^i row_i = a * b; default mode through the C07 weighted-sum '
-             'theorem plus a new gap-freeness invariant of its sorted work lists; column compressors as weighted-bag '
+             'theorem plus a gap-freeness invariant and a potential argument (number of levels) on its sorted work lists; column compressors as weighted-bag '
              'rewriting (sum_i 2^i ones(column_i) invariant modulo 2^(n+m), a * b < 2^(n+m) closes the gap); '
              'anti-diagonal peeling for add_mul_pow2_m1 / add_square_pow2_m1 with a pending-columns invariant; '
              'Karatsuba and add_square by induction on the fuel with the algebraic identities and the subtractor\'s '
